@@ -86,6 +86,7 @@ struct scen {
 
 static int g_qreg;		/* multi: forking thread registered with qsbr */
 static int g_reg;		/* forking thread registered with the harness flavor (non-bp) */
+static int g_main_in_fork_window;	/* bp: main forker is between urcu_bp_before_fork() and after_fork_parent() */
 static int g_maxdepth_cfg = 3, g_cur_maxdepth = 1;
 static double g_hookp = 0.25;
 static int g_multi;
@@ -569,6 +570,7 @@ static void run_scenario(int depth, uint64_t idx)
 #if VP_IS_BP
 	PH("bp_before_fork");
 	urcu_bp_before_fork();
+	VP_STORE(g_main_in_fork_window, 1);
 #endif
 	PH("snapshot");
 	s->npend = s->nqpend = s->ncompleted = 0;
@@ -706,6 +708,7 @@ static void run_scenario(int depth, uint64_t idx)
 			       "%s: %d callbacks (first id %d) ran between before_fork and after_fork_parent", s->cfg, bad, first);
 	}
 #if VP_IS_BP
+	VP_STORE(g_main_in_fork_window, 0);
 	urcu_bp_after_fork_parent();
 	check_mask(s, role, "urcu_bp_after_fork_parent");
 #endif
@@ -803,6 +806,60 @@ static int confirm_stuck(char *buf, size_t len)
 
 static long g_scenarios;
 
+#if VP_IS_BP
+/* A second thread of the root process forks on its own, bracketed by the bp handlers only, with a signal
+ * mask different from the main forker's.  urcu_bp_before_fork() serialises concurrent forks on rcu_gp_lock:
+ * whichever thread is inside its fork window, each must get ITS mask back in the parent and in the child.
+ * The child checks its mask and exits at once (it never touches call_rcu or the hash table). */
+static int g_comp_stop;
+static uint64_t g_comp_forks, g_comp_overlaps;
+static void *bp_competitor_main(void *arg)
+{
+	(void) arg;
+	vp_pin(3);
+	struct vp_rng r;
+	vp_rng_init(&r, vp_opt.seed, 0xc03b, 0);
+	while (!VP_LOAD(g_comp_stop) && !G.nviol) {
+		sigset_t m, cur, old;
+		sigemptyset(&m);
+		/* a mask the main forker never uses: SIGRTMIN+5.. */
+		sigaddset(&m, SIGRTMIN + 5 + (int) vp_rand_n(&r, 6));
+		sigaddset(&m, SIGURG);
+		pthread_sigmask(SIG_SETMASK, &m, &old);
+		/* prefer the moments when the main forker is inside its own window */
+		for (int k = 0; k < 400 && !VP_LOAD(g_main_in_fork_window) && !VP_LOAD(g_comp_stop); k++)
+			usleep(50);
+		int overlap = VP_LOAD(g_main_in_fork_window);
+		urcu_bp_before_fork();
+		pid_t pid = fork();
+		if (pid == 0) {
+			urcu_bp_after_fork_child();
+			pthread_sigmask(SIG_SETMASK, NULL, &cur);
+			_exit(mask_equal(&cur, &m) ? 0 : 77);
+		}
+		urcu_bp_after_fork_parent();
+		pthread_sigmask(SIG_SETMASK, NULL, &cur);
+		if (!mask_equal(&cur, &m))
+			vp_violation("c16:parent:signal-mask-not-restored",
+				     "bp: a second thread forking concurrently with the main forker (urcu_bp_before_fork / fork / urcu_bp_after_fork_parent) got a different signal mask back than the one it had before urcu_bp_before_fork()%s",
+				     overlap ? " (the main forker was inside its fork window when this thread entered before_fork)" : "");
+		if (pid > 0) {
+			int st = 0;
+			while (waitpid(pid, &st, 0) < 0 && errno == EINTR)
+				;
+			if (WIFEXITED(st) && WEXITSTATUS(st) == 77)
+				vp_violation("c16:child:signal-mask-not-restored",
+					     "bp: child of a second thread forking concurrently with the main forker: signal mask after urcu_bp_after_fork_child() differs from the forking thread's mask before urcu_bp_before_fork()");
+			g_comp_forks++;
+			g_comp_overlaps += (uint64_t) overlap;
+		}
+		pthread_sigmask(SIG_SETMASK, &old, NULL);
+		usleep(300 + vp_rand_n(&r, 3000));
+	}
+	return NULL;
+}
+#endif
+
 static void *forker_main(void *arg)
 {
 	(void) arg;
@@ -852,6 +909,12 @@ int main(int argc, char **argv)
 	snprintf(g_root_shp.phase, sizeof(g_root_shp.phase), "init");
 	/* twice the child-observation interval: a stuck child is always decided by wait_child() first */
 	vp_watchdog_start(2 * (uint64_t) vp_arg_long("stall-ms", 21000), confirm_stuck);
+#if VP_IS_BP
+	pthread_t comp_t;
+	int have_comp = (int) vp_arg_long("bp-competitor", 1);
+	if (have_comp && pthread_create(&comp_t, NULL, bp_competitor_main, NULL))
+		have_comp = 0;
+#endif
 	if (forker_thread) {
 		pthread_t t;
 		if (pthread_create(&t, NULL, forker_main, NULL))
@@ -859,6 +922,14 @@ int main(int argc, char **argv)
 		pthread_join(t, NULL);
 	} else
 		forker_main(NULL);
+#if VP_IS_BP
+	if (have_comp) {
+		VP_STORE(g_comp_stop, 1);
+		pthread_join(comp_t, NULL);
+		vp_counter_add("bp_concurrent_forks_by_second_thread", g_comp_forks);
+		vp_counter_add("bp_concurrent_forks_entered_while_main_in_fork_window", g_comp_overlaps);
+	}
+#endif
 	vp_watchdog_stop();
 	vp_counter_add("wq_pause_with_work_queued", __atomic_load_n(&g_wq_pause_with_work, __ATOMIC_RELAXED));
 	vp_counter_add("helper_pause_seen", __atomic_load_n(&g_helper_pause_seen, __ATOMIC_RELAXED));
